@@ -232,6 +232,66 @@ def arena_bounds(ck, F, prefix='C03'):
                      f'returns the storage of the new block={returns_storage}', loc=af['loc'], fn=af['id'])
     ck.check(R3, 'three-paths', seen == {'in-pool', 'oversize', 'fresh-pool'}, f'allocate paths recognised: {sorted(seen)}', loc=af['loc'], fn=af['id'])
 
+    # ---------------------------------------------------------------- the cursor stays inside the current pool
+    R3c = ck.rule(f'{prefix}.cursor-in-current-pool', 'after every path of allocate the cursor (next free header) points into the storage of the pool '
+                  'the arena regards as current: when the current pool changes the cursor moves into the new one, and when the cursor is left '
+                  'alone the current pool is too -- the remaining count is never a difference of pointers into two different blocks', floor=3)
+    F_MEM2 = F.role_field('ipr::util::string::arena', lambda fl: fl['t'].rstrip().endswith('pool *'), 'current pool')
+    MEM2 = ('fld', ('sym', 'this'), F_MEM2)
+    for pi, (st, k, v) in enumerate(S4.run(af['id'])):
+        if k != 'return':
+            continue
+        mem_after = st.symstore.get(MEM2, MEM2)
+        nh_after = st.symstore.get(NH, NH)
+
+        def pool_of(t):
+            # the block a header pointer points into: the old cursor -> the old current pool; X->storage (+ k) -> X
+            if t == NH:
+                return MEM2
+            if isinstance(t, tuple) and t[0] == 'op' and t[1] in ('+', '-') and len(t) == 4:
+                return pool_of(t[2])
+            if isinstance(t, tuple) and t[0] == 'fld' and t[2] == F_STORAGE and isinstance(t[1], tuple) and t[1][0] == 'deref':
+                return t[1][1]
+            if isinstance(t, tuple) and t[0] in ('addr', 'castto', 'decay'):
+                return pool_of(t[-1] if t[0] != 'addr' else t[1])
+            if isinstance(t, tuple) and t[0] == 'index':
+                return pool_of(t[1])
+            return None
+        po = pool_of(nh_after)
+        ck.check(R3c, f'allocate/path{pi}', po is not None and po == mem_after,
+                 f'arena::allocate, path ({contracts.render_conds(st.conds, st, {})[:90]}): afterwards the current pool is '
+                 f'`{contracts.render(mem_after, st, {})[:70]}` but the cursor points into `{contracts.render(po, st, {})[:70] if po is not None else "?"}`: '
+                 'the next allocation measures the room left across two unrelated blocks and writes past the end of one of them', loc=af['loc'], fn=af['id'])
+
+    # ---------------------------------------------------------------- the current pool exists wherever it is used
+    R3b = ck.rule(f'{prefix}.pool-pointer-valid', 'wherever allocate follows the pointer to the current pool (its storage, its link), that pointer is '
+                  'not null: every constructor gives the arena a pool, or the path has tested the pointer -- otherwise a word that takes that '
+                  'path first (an oversize first word) dereferences a null pool', floor=1)
+    ctors = [g2 for g2 in F.fns_in('ipr::util::string::arena') if g2.get('ctor') and not g2.get('implicit') and g2.get('body') is not None]
+    F_MEM = F.role_field('ipr::util::string::arena', lambda fl: fl['t'].rstrip().endswith('pool *'), 'current pool')
+    may_be_null = False
+    Sc = Sym(F, opaque=lambda fid: F.fn.get(fid) is None, max_depth=20)
+    for c in ctors:
+        stc = State()
+        oc = stc.new_obj('ipr::util::string::arena')
+        for s2, k2, _v2 in Sc.run(c['id'], this=oc, args=[('param', i) for i in range(len(c['params']))], state=stc):
+            mv = s2.heap[oc[1]].fields.get(F_MEM)
+            if mv is None or mv == NULL or (isinstance(mv, tuple) and mv[:2] == ('k', 0)):
+                may_be_null = True
+    MEMT = ('fld', ('sym', 'this'), F_MEM)
+    bad_d = []
+    for st, k, v in S4.run(af['id']):
+        for ptr, ln, nc, _fn, _ne in st.derefs:
+            if ptr != MEMT or not may_be_null:
+                continue
+            known = [(c, val) for c, val in st.conds[:nc]]
+            tested = any((c in (('op', '!=', MEMT, NULL), ('op', '!=', NULL, MEMT)) and val) or (c in (('op', '==', MEMT, NULL), ('op', '==', NULL, MEMT)) and not val)
+                         or (c == MEMT and val) for c, val in known)
+            if not tested:
+                bad_d.append(f'line {ln} under ({contracts.render_conds(st.conds[:nc], st, {})[:100]})')
+    ck.check(R3b, 'arena::allocate', not bad_d, 'arena::allocate follows the pool pointer where it may still be null (a constructor leaves the arena '
+             'without a pool): ' + '; '.join(sorted(set(bad_d))[:3]), loc=af['loc'], fn=af['id'], detail={'constructor_can_leave_null': may_be_null})
+
     return {'S4': S4, 'af': af, 'NH': NH, 'F_STORAGE': F_STORAGE, 'srec': srec}
 
 
@@ -392,66 +452,6 @@ def run(ck, F):
     # ---------------------------------------------------------------- bounded write (E8)
     AB = arena_bounds(ck, F)
     S4, af, NH, F_STORAGE, srec = AB['S4'], AB['af'], AB['NH'], AB['F_STORAGE'], AB['srec']
-
-    # ---------------------------------------------------------------- the cursor stays inside the current pool
-    R3c = ck.rule('C03.cursor-in-current-pool', 'after every path of allocate the cursor (next free header) points into the storage of the pool '
-                  'the arena regards as current: when the current pool changes the cursor moves into the new one, and when the cursor is left '
-                  'alone the current pool is too -- the remaining count is never a difference of pointers into two different blocks', floor=3)
-    F_MEM2 = F.role_field('ipr::util::string::arena', lambda fl: fl['t'].rstrip().endswith('pool *'), 'current pool')
-    MEM2 = ('fld', ('sym', 'this'), F_MEM2)
-    for pi, (st, k, v) in enumerate(S4.run(af['id'])):
-        if k != 'return':
-            continue
-        mem_after = st.symstore.get(MEM2, MEM2)
-        nh_after = st.symstore.get(NH, NH)
-
-        def pool_of(t):
-            # the block a header pointer points into: the old cursor -> the old current pool; X->storage (+ k) -> X
-            if t == NH:
-                return MEM2
-            if isinstance(t, tuple) and t[0] == 'op' and t[1] in ('+', '-') and len(t) == 4:
-                return pool_of(t[2])
-            if isinstance(t, tuple) and t[0] == 'fld' and t[2] == F_STORAGE and isinstance(t[1], tuple) and t[1][0] == 'deref':
-                return t[1][1]
-            if isinstance(t, tuple) and t[0] in ('addr', 'castto', 'decay'):
-                return pool_of(t[-1] if t[0] != 'addr' else t[1])
-            if isinstance(t, tuple) and t[0] == 'index':
-                return pool_of(t[1])
-            return None
-        po = pool_of(nh_after)
-        ck.check(R3c, f'allocate/path{pi}', po is not None and po == mem_after,
-                 f'arena::allocate, path ({contracts.render_conds(st.conds, st, {})[:90]}): afterwards the current pool is '
-                 f'`{contracts.render(mem_after, st, {})[:70]}` but the cursor points into `{contracts.render(po, st, {})[:70] if po is not None else "?"}`: '
-                 'the next allocation measures the room left across two unrelated blocks and writes past the end of one of them', loc=af['loc'], fn=af['id'])
-
-    # ---------------------------------------------------------------- the current pool exists wherever it is used
-    R3b = ck.rule('C03.pool-pointer-valid', 'wherever allocate follows the pointer to the current pool (its storage, its link), that pointer is '
-                  'not null: every constructor gives the arena a pool, or the path has tested the pointer -- otherwise a word that takes that '
-                  'path first (an oversize first word) dereferences a null pool', floor=1)
-    ctors = [g2 for g2 in F.fns_in('ipr::util::string::arena') if g2.get('ctor') and not g2.get('implicit') and g2.get('body') is not None]
-    F_MEM = F.role_field('ipr::util::string::arena', lambda fl: fl['t'].rstrip().endswith('pool *'), 'current pool')
-    may_be_null = False
-    Sc = Sym(F, opaque=lambda fid: F.fn.get(fid) is None, max_depth=20)
-    for c in ctors:
-        stc = State()
-        oc = stc.new_obj('ipr::util::string::arena')
-        for s2, k2, _v2 in Sc.run(c['id'], this=oc, args=[('param', i) for i in range(len(c['params']))], state=stc):
-            mv = s2.heap[oc[1]].fields.get(F_MEM)
-            if mv is None or mv == NULL or (isinstance(mv, tuple) and mv[:2] == ('k', 0)):
-                may_be_null = True
-    MEMT = ('fld', ('sym', 'this'), F_MEM)
-    bad_d = []
-    for st, k, v in S4.run(af['id']):
-        for ptr, ln, nc, _fn, _ne in st.derefs:
-            if ptr != MEMT or not may_be_null:
-                continue
-            known = [(c, val) for c, val in st.conds[:nc]]
-            tested = any((c in (('op', '!=', MEMT, NULL), ('op', '!=', NULL, MEMT)) and val) or (c in (('op', '==', MEMT, NULL), ('op', '==', NULL, MEMT)) and not val)
-                         or (c == MEMT and val) for c, val in known)
-            if not tested:
-                bad_d.append(f'line {ln} under ({contracts.render_conds(st.conds[:nc], st, {})[:100]})')
-    ck.check(R3b, 'arena::allocate', not bad_d, 'arena::allocate follows the pool pointer where it may still be null (a constructor leaves the arena '
-             'without a pool): ' + '; '.join(sorted(set(bad_d))[:3]), loc=af['loc'], fn=af['id'], detail={'constructor_can_leave_null': may_be_null})
 
     # ---------------------------------------------------------------- immutability
     R4 = ck.rule('C03.immutable', 'a String\'s view is const, the only writes through a util::string are in make_string, buckets are '
